@@ -116,6 +116,7 @@ def strategy_(draw, tier):
         pts += [b * unit, (b + 1) * unit]
     spec["requests"] = draw(strat.requests(spec["size"], unit, count=6, points=pts[:64], whole_limit=4 << 20))
     spec["via_minimal"] = draw(strat.minimal_handle())
+    spec["fault"] = draw(strat.fault())
     spec["sector_requests"] = [[o // 512, max(1, min(n, 1 << 20) // 512)] for o, n in spec["requests"][:2]]
     return spec
 
@@ -165,7 +166,7 @@ def check(spec) -> Outcome:
         return out
     if v.size != spec["size"]:
         out.fail(f"mismatch|{tag}-size", f"size {v.size} != {spec['size']}")
-    check_reads(out, v, lay, spec["requests"], tag)
+    check_reads(out, v, lay, spec["requests"], tag, fault=spec.get("fault"), fault_fh=fh)
     from hv.core import also_minimal
 
     also_minimal(out, spec, fh, VHD, lay, spec["requests"], tag)
